@@ -122,6 +122,8 @@ def run_tickers(start, tickers):
     with patched(_timing, 'postpone', logged_postpone), patched(_timing, 'suspend', logged_suspend):
         try:
             usim.run(root(), start=start)
+        except KeyboardInterrupt:
+            raise
         except BaseException as e:  # noqa: nothing may leave run() here
             for log in logs:
                 log.error = '%s: %s' % (type(e).__name__, e)
